@@ -71,7 +71,7 @@ func lcEval(cs lcCase) []core.Finding {
 }
 
 func fs2file(text []byte) *fs.File { return fs.NewFile("linecol", text) }
-func toIndex(i int) jbytes.Index     { return jbytes.Index(i) }
+func toIndex(i int) jbytes.Index   { return jbytes.Index(i) }
 
 func runC16(c *core.Ctx) error {
 	res, err := tlc.Run(tlc.Opts{Module: "LineCol", Cfg: "LineCol.cfg", Workers: 8})
